@@ -204,3 +204,62 @@ def request_signature(rec, req, mode, info, exp, got):
     if req["kind"] == "slice":
         sig["neg_start"] = (req["start"] != NONE and req["start"] < 0)
     return sig
+
+
+def layout_of(fd, e, xtype):
+    """per-segment byte layout facts of the encoded file, as logged into footprint traces"""
+    lay = []
+    for seg, es in zip(fd["segs"], e.segs):
+        dataobjs = [o for o in seg["objs"] if o["has"]]
+        xoff = xlen = 0
+        off = 0
+        row = 0
+        for o in dataobjs:
+            sz = enc.size_of(o["ty"])
+            row += sz or 0
+        if es["layout"]:
+            for (p, start, nb, nv) in es["layout"][0]:
+                if p == X:
+                    xoff, xlen = start, nb
+        else:
+            for o in dataobjs:
+                if o["p"] == X:
+                    xoff, xlen = off, (enc.size_of(o["ty"]) or 0) * o["n"]
+                off += (enc.size_of(o["ty"]) or 0) * o["n"]
+        lay.append({"pos": es["pos"], "dataPos": es["dataPos"], "chunkBytes": es["chunkBytes"], "xoff": xoff,
+                    "xlen": xlen, "xsz": enc.size_of(xtype) or 0, "rowBytes": row})
+    return lay
+
+
+def record_footprint_case(case):
+    """worker for C19: one shape -> one trace: all windows and indices of the shape executed on ONE lazily opened
+    file over a recording stream; every step logs the reads the library issued."""
+    from nptdms import TdmsFile
+    from .recstream import RecordingStream
+    rec = case["rec"]
+    seed = case["seed"]
+    if not rec["shape"]["segs"] or rec["len"] == 0:
+        return {"n": 0, "keys": [], "fails": [], "validated": 0, "trace": None}
+    fd, info = build_shape_file(rec["shape"], seed, case.get("variant", 0))
+    e = enc.encode(fd, seed)
+    stream = RecordingStream(e.data)
+    f = TdmsFile.open(stream, raw_timestamps=True)
+    ch = f["grp"]["x"]
+    steps = []
+    reqs = [c["req"] for c in rec["cases"] if c["req"]["kind"] in ("window", "index")]
+    # deterministic order: windows first sorted, then indices ascending then descending (cache hits and misses)
+    wins = sorted([r for r in reqs if r["kind"] == "window"], key=lambda r: (r["off"], r["len"]))
+    idx = sorted([r for r in reqs if r["kind"] == "index"], key=lambda r: r["i"])
+    order = wins + idx + idx[::-1] + idx[::2]
+    stream.recording = True
+    for r in order:
+        stream.take()
+        perform(ch, r)
+        st = dict(r)
+        st["reads"] = stream.take()
+        steps.append(st)
+    f.close()
+    trace = {"id": case["id"], "il": bool(rec["shape"]["il"]), "segs": rec["shape"]["segs"],
+             "lay": layout_of(fd, e, info["xtype"]), "steps": steps,
+             "info": {"xtype": info["xtype"], "with_y": info["with_y"], "variant": case.get("variant", 0)}}
+    return {"n": len(steps), "keys": [_h(repr(rec["shape"]))], "fails": [], "validated": 0, "trace": trace}
